@@ -98,3 +98,43 @@ def nc_siblings(n: size, x: f32[n], y: f32[n]):
 
 PROCS = [nc_shadow_arg, nc_shadow_size, nc_nested, nc_alloc, nc_bool, nc_inlined, nc_div, nc_siblings]
 CONFIGS = []
+
+
+# ---- factories: procedures (re)built from source on demand, so that a check can vary what happened in the process
+#      before they were built (e.g. the global symbol counter, C18)
+_FACTORY_SRC = """from __future__ import annotations
+from exo import proc
+
+@proc
+def ncf_tap(acc: [f32][1], w: [f32][4]):
+    for i in seq(0, 4):
+        acc[0] += w[i]
+
+@proc
+def ncf_blur(n: size, y: f32[n], x: f32[n + 3]):
+    for i in seq(0, n):
+        y[i] = 0.0
+        ncf_tap(y[i:i + 1], x[i:i + 4])
+
+@proc
+def ncf_rowsum(n: size, A: f32[n, n + 3], o: f32[n]):
+    for i in seq(0, n):
+        o[i] = 0.0
+        ncf_tap(o[i:i + 1], A[i, i:i + 4])
+"""
+_factory_calls = [0]
+
+
+def _make(which):
+    from exo.stdlib.scheduling import simplify
+    from .genmod import load_generated
+    _factory_calls[0] += 1
+    m = load_generated(f"exoverif_ncfactory_{_factory_calls[0]}", _FACTORY_SRC)
+    p = getattr(m, which)
+    p = inline(p, p.find("ncf_tap(_)"))
+    p = inline_window(p, p.find("acc = _"))
+    p = inline_window(p, p.find("w = _"))
+    return simplify(p)
+
+
+FACTORIES = {"ncf_blur": lambda: _make("ncf_blur"), "ncf_rowsum": lambda: _make("ncf_rowsum")}
